@@ -129,11 +129,20 @@ class SplittingSimulation(BaseSimulation):
                                   for _ in range(len(self.error_rates))]
 
         for i_run in range(n_runs):
+            # Advance every chain first and record the step for all of them
+            # at once, so that an interrupt in the middle of a step (decoding
+            # is where the time goes) does not leave chains of unequal length.
+            next_errors = []
+            log_p_errors = []
             for i_p, error_rate in enumerate(self.error_rates):
-                self.current_error[i_p], log_p_error = self.get_next_error(
+                next_error, log_p_error = self.get_next_error(
                     self.decoders[i_p], error_rate, self.current_error[i_p]
                 )
-                self._results['log_p_errors'][i_p].append(log_p_error)
+                next_errors.append(next_error)
+                log_p_errors.append(log_p_error)
+            for i_p in range(len(self.error_rates)):
+                self.current_error[i_p] = next_errors[i_p]
+                self._results['log_p_errors'][i_p].append(log_p_errors[i_p])
             self._results['n_runs'] += 1
 
     def postprocess(self):
